@@ -215,33 +215,33 @@ def run(rep, tier, seed):
     cur = [guards.canonical(e) for e in guards.inventory(tree)]
 
     def group(lst):
+        # per error code, the multiset of path conditions -- wherever in the file the diagnostic is raised
         g = {}
         for e in lst:
-            g.setdefault((e["fn"], e["code"]), []).append(e["chain"])
-        return g
+            g.setdefault(e["code"], []).append(tuple(sorted(e["chain"])))
+        return {k: sorted(v) for k, v in g.items()}
     gs, gc = group(spec), group(cur)
-    for key in sorted(set(gs) | set(gc)):
+    fn_of = {}
+    for e in cur + spec:
+        fn_of.setdefault(e["code"], e["fn"])
+    for code in sorted(set(gs) | set(gc)):
         n["rules"] += 1
-        a, b = gs.get(key, []), gc.get(key, [])
+        a, b = gs.get(code, []), gc.get(code, [])
         if a == b:
             continue
-        fn, code = key
+        fn = fn_of.get(code, "?")
         if not b:
-            rep.add(f"C08|guards|rule-removed|{fn}|{code}", f"{fn} no longer raises {code}", AN + ":" + fn)
+            rep.add(f"C08|guards|rule-removed|{code}", f"{code} is no longer raised (was: {fn})", AN + ":" + fn)
         elif not a:
-            rep.add(f"C08|guards|rule-added|{fn}|{code}", f"{fn} raises {code} under conditions that were never confirmed: "
-                    f"{b[0][-1][:200] if b[0] else ''}", AN + ":" + fn)
+            rep.add(f"C08|guards|rule-added|{code}", f"{fn} raises {code} under conditions that were never confirmed: "
+                    f"{list(b[0])[:4]}", AN + ":" + fn)
         else:
-            diff = []
-            for x, y in zip(a, b):
-                for i, (cx, cy) in enumerate(zip(x, y)):
-                    if cx != cy:
-                        diff.append((cx, cy))
-                if len(x) != len(y):
-                    diff.append((f"{len(x)} conditions", f"{len(y)} conditions"))
-            d0 = diff[0] if diff else (str(len(a)) + " sites", str(len(b)) + " sites")
-            rep.add(f"C08|guards|guard-changed|{fn}|{code}", f"the conditions under which {fn} raises {code} changed: confirmed "
-                    f"`{d0[0][:220]}` now `{d0[1][:220]}`", AN + ":" + fn, {"confirmed": a, "now": b})
+            only_a = [x for x in a if x not in b]
+            only_b = [x for x in b if x not in a]
+            xa, xb = set(only_a[0]) if only_a else set(), set(only_b[0]) if only_b else set()
+            rep.add(f"C08|guards|guard-changed|{code}", f"the conditions under which {fn} raises {code} changed: confirmed "
+                    f"{sorted(xa - xb)[:3] or len(a)} now {sorted(xb - xa)[:3] or len(b)}", AN + ":" + fn,
+                    {"confirmed": [list(x) for x in only_a][:3], "now": [list(x) for x in only_b][:3]})
     samples.append({"rule": "guard inventory", "sites": len(cur), "example": cur[0] if cur else None})
     if len(cur) < 53:
         rep.add("C08|floor|guard-sites", f"only {len(cur)} diagnostic sites (floor 53)", AN)
